@@ -283,6 +283,12 @@ def replay_from_reset(kind, width, depth, cst, cin):
     trace.append((0, 0, 0))
     trace.append((0, 0, 1))
     trace.append((0, 0, 1))
+    # then stream 3*depth more entries through with the reader always ready, so that a corrupted pointer or
+    # level shows up at the interface (wrap-around of both pointers)
+    for k in range(3 * max(depth, 1)):
+        trace.append((1, (k + 1) % (1 << width) if width else 0, 1))
+    for k in range(depth + 2):
+        trace.append((0, 0, 1))
     log = queue_model_run(kind, width, depth, trace)
     return {"reached": True, "violated": log["violated"], "what": log["what"], "trace": trace}
 
@@ -380,7 +386,7 @@ def main(tier, seed):
         for d in depths:
             for w in widths:
                 jobs.append({"id": f"step-{kind}-w{w}-d{d}", "what": "step", "kind": kind, "width": w, "depth": d})
-        for d in ((1, 2, 3) if tier == "quick" else (1, 2, 3, 4, 5)):
+        for d in ((1, 2, 3, 4) if tier == "quick" else (1, 2, 3, 4, 5, 7)):
             jobs.append({"id": f"bmc-{kind}-d{d}", "what": "bmc", "kind": kind, "width": 2, "depth": d,
                          "K": 2 * d + (3 if tier == "quick" else 4)})
     results, stats = run.run_jobs(job_fn, jobs)
